@@ -715,7 +715,7 @@ impl Pooled for C16 {
                 f(&Case { profile: profile.into(), op: op.clone(), n: 0 });
             }
         }
-        let sizes: &[usize] = tier.pick(&[20_000][..], &[100_000, 1_000_000][..]);
+        let sizes: &[usize] = tier.pick(&[][..], &[20_000, 100_000, 1_000_000][..]);
         for &n in sizes {
             for profile in self.profiles() {
                 for op in op_names() {
@@ -737,7 +737,7 @@ impl Pooled for C16 {
         24 << 30
     }
     fn workers(&self) -> usize {
-        8
+        14
     }
     fn crash_sig(&self, c: &Case, kind: &str) -> String {
         format!("{kind}:{}:{}", c.profile, c.op)
@@ -748,9 +748,11 @@ impl Pooled for C16 {
         let case = self.case_json(c);
         if c.n == 0 {
             // warm-up (lazy statics, first allocations), then two measured sizes
+            // (the pretty serializers are quadratic in time: half the sizes for them)
+            let (n1, n2) = if c.op.contains("pretty") { (N1 / 2, N2 / 2) } else { (N1, N2) };
             let _ = measured(build_big(&c.op, 8));
-            let (r1, w1, _) = measured(build_big(&c.op, N1));
-            let (r2, w2, _) = measured(build_big(&c.op, N2));
+            let (r1, w1, _) = measured(build_big(&c.op, n1));
+            let (r2, w2, _) = measured(build_big(&c.op, n2));
             st.inc("slope_cases");
             st.inc("runs");
             st.inc("runs");
@@ -763,11 +765,11 @@ impl Pooled for C16 {
             }
             st.max("max_high_water_bytes", w2 as u64);
             if w2 > w1 + TOLERANCE {
-                let per = (w2 - w1) as f64 / (N2 - N1) as f64;
+                let per = (w2 - w1) as f64 / (n2 - n1) as f64;
                 out.push(Violation::new(
                     format!("stack-grows:{}:{}", c.profile, c.op),
                     format!(
-                        "stack high-water mark {w1} bytes at n={N1} but {w2} bytes at n={N2}: about {per:.0} bytes of stack per additional element, i.e. a 2 MiB stack overflows near n={:.0} (results {r1:?} / {r2:?})",
+                        "stack high-water mark {w1} bytes at n={n1} but {w2} bytes at n={n2}: about {per:.0} bytes of stack per additional element, i.e. a 2 MiB stack overflows near n={:.0} (results {r1:?} / {r2:?})",
                         STACK as f64 / per
                     ),
                     case,
@@ -822,13 +824,13 @@ pub fn run(tier: Tier) -> Report {
     }
     let nops = op_names().len();
     rep.rule = format!(
-        "{nops} operations (pattern queries in Light/Fast datasets and graphs for every combination of constant positions x position of a non-constant matcher rejecting all rows but the last; term enumerations; one literal of n escaped characters in 8 serializers x 5 escape kinds; 15 SPARQL forms incl. GRAPH ?g over n named graphs, OFFSET, FILTER, joins; serialising n statements in 6 shapes incl. one RDF list of n items, in and out of named graphs, in 8 serializers; parsing n statements / one collection of n items / n-ary predicate and object lists in 8 parsers; insert_all/remove_matching/retain_matching/remove on 6 stores; canonicalisation and isomorphism of n statements) x 2 build profiles of the harness and of /repo (dev: opt-level 0; release); slope mode: stack high-water marks on a painted 2 MiB thread stack at n={N1} and n={N2} must differ by at most {TOLERANCE} bytes; big mode: the operation runs at n={} on a 2 MiB thread in a child process; non-trivial = the run at the larger size completed with a value (not an error)",
+        "{nops} operations (pattern queries in Light/Fast datasets and graphs for every combination of constant positions x position of a non-constant matcher rejecting all rows but the last; term enumerations; one literal of n escaped characters in 8 serializers x 5 escape kinds; 15 SPARQL forms incl. GRAPH ?g over n named graphs, OFFSET, FILTER, joins; serialising n statements in 6 shapes incl. one RDF list of n items, in and out of named graphs, in 8 serializers; parsing n statements / one collection of n items / n-ary predicate and object lists in 8 parsers; insert_all/remove_matching/retain_matching/remove on 6 stores; canonicalisation and isomorphism of n statements) x 2 build profiles of the harness and of /repo (dev: opt-level 0; release); slope mode: stack high-water marks on a painted 2 MiB thread stack at n={N1} and n={N2} (half of each for the pretty serializers, which are quadratic in time) must differ by at most {TOLERANCE} bytes; big mode: the operation runs at n={} on a 2 MiB thread in a child process; non-trivial = the run at the larger size completed with a value (not an error)",
         match tier {
-            Tier::Quick => "20 000",
-            Tier::Thorough => "100 000 and 1 000 000 (cases whose predicted time exceeds 240 s are skipped and counted under big_cases_capped_for_time)",
+            Tier::Quick => "(not run in this tier)",
+            Tier::Thorough => "20 000, 100 000 and 1 000 000 (cases whose predicted time exceeds 240 s are skipped and counted under big_cases_capped_for_time)",
         }
     );
-    rep.bounds = json!({"operations": nops, "profiles": ["dev", "release"], "slope_sizes": [N1, N2], "tolerance_bytes": TOLERANCE, "big_sizes": tier.pick(vec![20_000], vec![100_000, 1_000_000]), "stack_bytes": STACK});
+    rep.bounds = json!({"operations": nops, "profiles": ["dev", "release"], "slope_sizes": [N1, N2], "tolerance_bytes": TOLERANCE, "big_sizes": tier.pick(vec![], vec![20_000, 100_000, 1_000_000]), "stack_bytes": STACK});
     rep.assumptions = vec![
         "stack depth of an operation is monotone in the size dimension, so the largest rung of the ladder decides the smaller ones".into(),
         "inputs are built on a separate large-stack thread: only the operation under test (and the drop of what it owns) runs on the 2 MiB stack".into(),
